@@ -145,6 +145,8 @@ struct WkdRun {
 
     void check_key(KeyM& k, const char* prop, const std::string& what, bool roundtrip = true) {
         check_canary(k, what.c_str());
+        // the key must live in the caller's own object and array: a result that points into another key's storage changes when that key does
+        if (k.barr.p && R.jv_wk_sk_barray(k.sk) != (void*) k.barr.p) env.fail("C20", "distinct-output-objects", what + ": the resulting key's free-slot pointer no longer points at the array its caller supplied (the key shares storage with another object)");
         int l = R.jv_wk_sk_l(k.sk);
         ExpKey e = expected_key(k.pat, k.rho);
         std::string pats = pat_str(k.pat);
@@ -470,7 +472,11 @@ struct WkdRun {
         }
         if (op.arg(3)) {   // C14: sign_precomputed interchangeable
             Buf pre(R.sz(JV_SZ_WK_PRE)), sig2(R.sz(JV_SZ_WK_SIG)); make_pre(pre, L);
-            call_begin(ss, &sf); R.jv_wk_sign_precomputed(view, sig2, sys.params, pk->sk, &ja.l, pre, m32, jv_rand_cb);
+            // a list that only repeats what the key already fixes need not be passed to sign_precomputed at all ("attrs may be left nil")
+            bool only_fixed = true; for (auto& a : L) if ((size_t) a.idx >= pk->pat.size() || pk->pat[a.idx].st != ST_FIXED) only_fixed = false;
+            JAttrs jnull(L, false, true);
+            if (only_fixed && (ss & 1)) { call_begin(ss, &sf); R.jv_wk_sign_precomputed(view, sig2, sys.params, pk->sk, &jnull.l, pre, m32, jv_rand_cb); env.count("probe:sign_precomputed_with_null_list"); }
+            else { call_begin(ss, &sf); R.jv_wk_sign_precomputed(view, sig2, sys.params, pk->sk, &ja.l, pre, m32, jv_rand_cb); }
             env.soft(wk_marshal(R, view, JV_OK_WK_SIG, sg.sig, true) == wk_marshal(R, view, JV_OK_WK_SIG, sig2, true), "C14", "sign_precomputed:interchangeable", "sign and sign_precomputed with the same stream differ for " + list_str(L));
             env.count("probe:sign_vs_sign_precomputed_compared");
         }
